@@ -249,8 +249,8 @@ Proof.
         assert (Ho : out = (ft :: be_enc 3 (blen data + (if tagged then 16 else 0))) ++ ct) by congruence.
         clear H Hsend Plain. subst tagged. change (if true then 16 else 0) with 16 in *.
         assert (Hb : blen ct = blen data + 16) by (unfold blen; rewrite Hct, enc_len; lia).
-        exists ct. rewrite Hb. repeat split.
-      * apply (Plain false); auto. unfold tagged. exact En.
+        exists ct. rewrite Hb. split; [exact Ho|]. split; reflexivity.
+      * apply (Plain false); auto.
     + apply (Plain false); auto.
 Qed.
 Print Assumptions C07_comp_frame_bound.
